@@ -5,6 +5,7 @@ import (
 	"go/types"
 	"regexp"
 	"sort"
+	"strconv"
 	"strings"
 
 	"ddcheck/core"
@@ -107,93 +108,124 @@ func C19(p *core.Program, r *core.Report) {
 	}
 	seenTypes := map[string]bool{}
 	allRoots := map[string]bool{}
-	var fns []*ssa.Function
-	for fn := range p.AllFunctions() {
-		if core.FnPkgPath(fn) == embedPkg.Pkg.Path() && fn.Blocks != nil {
-			fns = append(fns, fn)
-		}
-	}
-	sort.Slice(fns, func(i, j int) bool { return fns[i].String() < fns[j].String() })
 	nEmbeds := 0
-	for _, fn := range fns {
-		allocs := allocsOf(fn, "/internal/webdoc", "Embed")
-		hrdCalls := core.Calls(fn, func(c ssa.CallInstruction) bool { return core.IsCallTo(c, hasRootDomainKey) })
-		for _, hc := range hrdCalls {
-			if s, ok := core.ConstString(hc.Common().Args[1]); ok {
-				allRoots[s] = true
-			} else {
-				r.Add("H3", core.ShortKey(fn)+": HasRootDomain root argument", p.Pos(hc.Pos()), false, "root domain argument is not a constant: "+core.NewCanon(p).Of(hc.Common().Args[1]))
-			}
-		}
-		if len(allocs) == 0 {
+	// Decided on the decision paths of every analysis unit of package embed that builds a
+	// webdoc.Embed (helpers expanded, loops over fixed tables of roots unrolled): a path that
+	// stores the Type of an embed carries a HasRootDomain test that came out true.
+	reHRD := regexp.MustCompile(`^domutil\.HasRootDomain\((.*),("(?:[^"\\]|\\.)*"|[^,]*)\)$`)
+	for _, u := range units(p) {
+		if core.FnPkgPath(p.Original(u)) != embedPkg.Pkg.Path() || len(allocsOf(u, "/internal/webdoc", "Embed")) == 0 {
 			continue
 		}
-		cut := core.CutWhere(fn, core.IsCallValue(hasRootDomainKey), true)
-		for i, a := range allocs {
-			nEmbeds++
-			key := fmt.Sprintf("%s: webdoc.Embed #%d", core.ShortKey(fn), i+1)
-			if len(hrdCalls) == 0 {
-				r.Add("H2", key, p.Pos(a.Pos()), false, "an embed placeholder is built in a function that never tests the host with HasRootDomain")
-				continue
-			}
-			ok := !core.InstrReachable(fn, cut, a)
-			r.Add("H2", key, p.Pos(a.Pos()), ok, "construction must be unreachable when every HasRootDomain()==true edge is removed")
-			// H3: Type literal and roots
-			fs := fieldStores(a)
-			tp := ""
-			if len(fs["Type"]) == 1 {
-				tp, _ = core.ConstString(fs["Type"][0])
-			}
-			var roots []string
-			for _, hc := range hrdCalls {
-				if s, ok := core.ConstString(hc.Common().Args[1]); ok {
-					roots = append(roots, s)
+		nEmbeds += len(allocsOf(u, "/internal/webdoc", "Embed"))
+		name := unitName(p, u)
+		paths, _, err := core.EnumerateDecisions(p, u, core.DecisionOpts{ResolvePhis: true,
+			Outcome: func(in ssa.Instruction, c *core.Canon) (string, bool) {
+				if _, ok := in.(*ssa.Return); ok {
+					return "return", true
 				}
-			}
-			sort.Strings(roots)
-			want, known := wantRoots[tp]
-			seenTypes[tp] = true
-			r.Add("H3", key+" type/root pairing", p.Pos(a.Pos()), known && sameSet(roots, want),
-				fmt.Sprintf("Type=%q tested roots=%v documented=%v", tp, roots, want))
-			// the id must be derived from the URL that was tested (or from the tested element for rendered tweets)
-			c := core.NewCanon(p)
-			c.Inline = false
-			tested := map[string]bool{}
-			for _, hc := range hrdCalls {
-				tested[c.Of(hc.Common().Args[0])] = true
-			}
-			idOK, idDesc := false, "no ID store"
-			if len(fs["ID"]) == 1 {
-				idDesc = c.Of(fs["ID"][0])
-				for t := range tested {
-					if strings.Contains(idDesc, t) {
-						idOK = true
-					}
-				}
-				// rendered tweet: id comes from an attribute of the iframe whose src was tested
-				if !idOK && strings.HasPrefix(idDesc, "dom.GetAttribute($1,") {
-					for t := range tested {
-						if strings.HasPrefix(t, "dom.GetAttribute($1,") {
-							idOK = true
+				return "", false
+			},
+			Event: func(in ssa.Instruction, c *core.Canon) (string, bool) {
+				if st, ok := in.(*ssa.Store); ok {
+					addr := c.Of(st.Addr)
+					for _, f := range []string{"Type", "ID", "Element"} {
+						if strings.HasSuffix(addr, "webdoc.Embed)."+f) {
+							return f + "=" + c.Of(st.Val), true
 						}
 					}
 				}
-			}
-			var ts []string
-			for t := range tested {
-				ts = append(ts, t)
-			}
-			sort.Strings(ts)
-			r.Add("H3", key+" id from tested URL", p.Pos(a.Pos()), idOK, "ID = "+idDesc+"; tested = "+strings.Join(ts, " ; "))
-			// Element is the visited node
-			elOK := false
-			if len(fs["Element"]) == 1 {
-				_, elOK = fs["Element"][0].(*ssa.Parameter)
-			}
-			r.Add("H3", key+" element is the tested node", p.Pos(a.Pos()), elOK, "")
+				return "", false
+			}})
+		if err != nil {
+			r.Undecided("H2", name, err.Error())
+			continue
 		}
+		nBuild := 0
+		var badGate, badPair, badID, badElem []string
+		byType := map[string]map[string]bool{}
+		for _, pa := range paths {
+			fields := map[string]string{}
+			for _, ev := range pathEvents(pa) {
+				if i := strings.Index(ev, "="); i > 0 {
+					fields[ev[:i]] = ev[i+1:]
+				}
+			}
+			tpq, builds := fields["Type"]
+			if !builds {
+				continue
+			}
+			nBuild++
+			tp, _ := strconv.Unquote(tpq)
+			var tested, roots []string
+			for _, l := range pa.Lits {
+				if m := reHRD.FindStringSubmatch(l.Atom); m != nil && l.Val {
+					tested = append(tested, m[1])
+					roots = append(roots, m[2])
+				}
+			}
+			if len(tested) == 0 {
+				badGate = append(badGate, pa.String())
+				continue
+			}
+			want, known := wantRoots[tp]
+			pairOK := known
+			for _, rt := range roots {
+				s, err := strconv.Unquote(rt)
+				if err != nil {
+					pairOK = false // the root that was tested is not a constant on this path
+					continue
+				}
+				allRoots[s] = true
+				if byType[tp] == nil {
+					byType[tp] = map[string]bool{}
+				}
+				byType[tp][s] = true
+				found := false
+				for _, w := range want {
+					found = found || w == s
+				}
+				pairOK = pairOK && found
+			}
+			if !pairOK {
+				badPair = append(badPair, fmt.Sprintf("Type=%s after a test for %v: %s", tpq, roots, pa.String()))
+			}
+			seenTypes[tp] = true
+			// the id is derived from the URL that was tested (or, for a rendered tweet, from an
+			// attribute of the frame whose src was tested)
+			idOK := false
+			for _, t := range tested {
+				if strings.Contains(fields["ID"], t) {
+					idOK = true
+				}
+				if strings.HasPrefix(fields["ID"], "dom.GetAttribute($1,") && strings.HasPrefix(t, "dom.GetAttribute($1,") {
+					idOK = true
+				}
+			}
+			if !idOK {
+				badID = append(badID, fmt.Sprintf("ID=%s tested=%v", fields["ID"], tested))
+			}
+			if fields["Element"] != "$1" {
+				badElem = append(badElem, "Element="+fields["Element"])
+			}
+		}
+		first := func(xs []string) []string {
+			if len(xs) > 2 {
+				return xs[:2]
+			}
+			return xs
+		}
+		pos := p.Pos(u.Pos())
+		r.Add("H2", name+": every path that builds a webdoc.Embed passed a HasRootDomain test", pos, nBuild > 0 && len(badGate) == 0,
+			fmt.Sprintf("%d decision paths build an embed, %d of them without a host test that came out true", nBuild, len(badGate)), first(badGate)...)
+		r.Add("H3", name+": type/root pairing", pos, len(badPair) == 0, fmt.Sprintf("%d paths pair a Type with a root outside its documented list", len(badPair)), first(badPair)...)
+		for tp, rs := range byType {
+			r.Add("H3", name+": roots accepted for "+tp, pos, sameSet(keys(rs), wantRoots[tp]), fmt.Sprintf("accepted=%v documented=%v", sortedKeys(rs), wantRoots[tp]))
+		}
+		r.Add("H3", name+": id from tested URL", pos, len(badID) == 0, fmt.Sprintf("%d paths", len(badID)), first(badID)...)
+		r.Add("H3", name+": element is the tested node", pos, len(badElem) == 0, fmt.Sprintf("%d paths", len(badElem)), first(badElem)...)
 	}
-	r.Floor("H2", 4)
+	r.Floor("H2", 3)
 	for tp := range wantRoots {
 		r.Add("H3", "service "+tp+" has an extractor", "", seenTypes[tp], "")
 	}
@@ -433,4 +465,10 @@ func frameSelector(pl *pruneLoop) bool {
 		}
 	}
 	return false
+}
+
+func sortedKeys(m map[string]bool) []string {
+	out := keys(m)
+	sort.Strings(out)
+	return out
 }
